@@ -364,7 +364,8 @@ def run_stage(stage, workdir, seed, tier, result):
     # "forder" variants: a sample of the scenarios is replayed a second time with every matrix handed to the library stored
     # column-major (same values, other memory layout); the expected behaviour is the same, so the copies share the model's verdicts
     # (every second copy instead with a negative stride along the column axis: "negstride")
-    scripts = scripts + [dict(s, **({'forder': True} if (i // FORDER_EVERY) % 2 == 0 else {'negstride': True})) for i, s in enumerate(scripts)
+    # and every third with alternating layouts ("mixlayout": the operands of one operation differ in layout)
+    scripts = scripts + [dict(s, **([{'forder': True}, {'negstride': True}, {'mixlayout': True}][(i // FORDER_EVERY) % 3])) for i, s in enumerate(scripts)
                          if i % FORDER_EVERY == 0 and s.get('fam') in FORDER_FAMILIES]
     for i, s in enumerate(scripts):
         s['sc'] = i
